@@ -42,7 +42,9 @@ class PureFunction(object):
         pass
 
     def objparams(self) -> List:
-        return self._cur_objparams
+        # what the object holds now (not what this wrapper last installed or saw:
+        # another wrapper of the same object may have substituted its tensors)
+        return self._uniq.get_unique_objs(self._get_all_obj_params_init())
 
     def set_objparams(self, objparams: List):
         # what the object holds right now is what has to be put back: another
